@@ -2,6 +2,8 @@ package main
 
 import (
 	"encoding/json"
+	"runtime/debug"
+	"strings"
 
 	"github.com/tyler-sommer/stick"
 	"github.com/tyler-sommer/stick/parse"
@@ -14,9 +16,21 @@ func init() {
 		var c struct {
 			Src    Bytes `json:"src"`
 			NoExec bool  `json:"noexec"` // parse only (structured sources may recurse without bound when executed: outside C01 and C02)
+			// src is Rep[0] + Rep[1] repeated RepN times + Rep[2] (long flat runs are not shipped through JSON)
+			Rep  []string `json:"rep"`
+			RepN int      `json:"repn"`
+			// a stack limit for this case in MB (Go's default is 1 GB): recursion proportional to the LENGTH of a flat run is
+			// what is being looked for, not the absolute limit
+			MaxStackMB int `json:"maxstack"`
 		}
 		if err := json.Unmarshal(raw, &c); err != nil {
 			return nil, err
+		}
+		if len(c.Rep) == 3 {
+			c.Src = Bytes(c.Rep[0] + strings.Repeat(c.Rep[1], c.RepN) + c.Rep[2])
+		}
+		if c.MaxStackMB > 0 {
+			defer debug.SetMaxStack(debug.SetMaxStack(c.MaxStackMB << 20))
 		}
 		src := string(c.Src)
 		obs := map[string]interface{}{}
